@@ -286,7 +286,7 @@ func runC07(r *vk.Run) {
 	}
 	r.SetExtra("calibrated_msg_label", msg)
 
-	r.Phase("rewrite", r.N(6000, 150000), func(c *vk.Case) {
+	r.Phase("rewrite", r.N(6000, 1500000), func(c *vk.Case) {
 		rng := c.Rng
 		n := rng.Range(3, 12)
 		coloured := rng.Chance(1, 4)
